@@ -124,6 +124,8 @@ def build_layout(L, eng, nl, ids_per_region=False):
         line = L.TextLine(id='l%d' % (k // 2 if ids_per_region else k), baseline=np.array([[10.0, 20.0 + 30 * k], [500.0, 22.0 + 30 * k]]),
                           polygon=np.array([[10, 5 + 30 * k], [500, 5 + 30 * k], [500, 28 + 30 * k], [10, 28 + 30 * k]], dtype=np.float64),
                           heights=[15.0, 6.0], transcription=t, logits=sparse.csc_matrix(lg), characters=list(cs) + ['<b>'], logit_coords=[0, lg.shape[0]])
+        # engine outputs read from PAGE XML already carry a (rounded) confidence of their own; merging compares what the posteriors say
+        line.transcription_confidence = [None, 0.999, 0.0, 0.5, 0.812][(ld['seed'] + k) % 5]
         regs[k % 2].lines.append(line)
     pl.regions = regs
     return pl
